@@ -730,6 +730,72 @@ def search_identities(ck: Ck, found: dict) -> None:
     ck.sample({'identity_case': {'angle': (90.0 - 1e-7, 30.0, 60.0), 'to_angle': str(__import__('srctools.math', fromlist=['Matrix']).Matrix.from_angle(90.0 - 1e-7, 30.0, 60.0).to_angle())}})
 
 
+# =============================================================================================== composed rotations
+def composed_problem(a: tuple, b: tuple, form: str) -> tuple[str, str] | None:
+    """A rotation obtained by COMPOSITION (entries carry the rounding of _mat_mul: an entry can be 1.0000000000000002)
+    converts to an Angle and back: exactly up to rounding outside the gimbal band, within 2*horizontal length inside,
+    and without an exception.  `form`: how the product is formed and converted."""
+    from srctools.math import Angle, Matrix
+    try:
+        if form == 'matrix':
+            M = Matrix.from_angle(*a) @ Matrix.from_angle(*b)
+            ang = M.to_angle()
+        elif form == 'angle':
+            M = Matrix.from_angle(*a) @ Matrix.from_angle(*b)
+            ang = Angle(*a) @ Angle(*b)
+        else:
+            M = Matrix.from_angle(*a) @ Matrix.from_angle(*b)
+            ang = Angle(*a)
+            ang @= Matrix.from_angle(*b)
+    except Exception as e:      # noqa: BLE001 - every exception on a valid rotation is a finding
+        return 'exception', f'{form}: converting from_angle{a} @ from_angle{b} to an Angle raised {type(e).__name__}: {e}'
+    m = mat_list(M)
+    if maxdiff(ref_mul(m, ref_T(m)), [[1, 0, 0], [0, 1, 0], [0, 0, 1]]) > TOL:
+        return None         # not a rotation up to rounding: reported by the other identities
+    h = horiz_of(m)
+    e = maxdiff(mat_list(Matrix.from_angle(ang)), m)
+    tol = TOL if h > GIMBAL + 1e-9 else 2 * h + TOL + (2 * GIMBAL if abs(h - GIMBAL) <= 1e-9 else 0)
+    if not e <= tol:
+        return ('gimbal' if h <= GIMBAL else 'general'), (f'{form}: from_angle(to_angle(M)) differs from M = from_angle{a} @ '
+                f'from_angle{b} by {e:.3g} (horizontal length {h:.3g}, tolerance {tol:.3g})')
+    return None
+
+
+def search_composed(ck: Ck, found: dict) -> None:
+    """Products of two rotations on the 45-degree grid (thorough: also random rows of the 15-degree grid) whose forward axis
+    comes out vertical (pre-selected with the reference maths: |forward . third column| >= 1 - 1e-12), plus random products."""
+    def grid(step: int) -> list[tuple[float, float, float]]:
+        k = 360 // step
+        return [(float(step * i), float(step * j), float(step * l)) for i in range(k) for j in range(k) for l in range(k)]
+    cands: list[tuple[tuple, tuple, str]] = []
+    for step, rows in ((45, None), (15, ck.budget(0, 150))):
+        G = grid(step)
+        fw = [ref_from_angle(*g)[0] for g in G]
+        col = [[r[2] for r in ref_from_angle(*g)] for g in G]
+        idx_a = range(len(G)) if rows is None else [ck.rng.randrange(len(G)) for _ in range(rows)]
+        for ia in idx_a:
+            fx, fy, fz = fw[ia]
+            for ib, (cx, cy, cz) in enumerate(col):
+                if abs(fx * cx + fy * cy + fz * cz) >= 1 - 1e-12:
+                    cands.append((G[ia], G[ib], f'vertical-grid{step}'))
+    ck.rng.shuffle(cands)
+    n_vert = ck.budget(2500, 60000)
+    cands = cands[:n_vert]
+    for _ in range(ck.budget(300, 5000)):
+        cands.append((gen_angle(ck.rng)[0], gen_angle(ck.rng)[0], 'random'))
+    for k, (a, b, cls) in enumerate(cands):
+        form = ('matrix', 'angle', 'imatmul')[k % 3]
+        ck.count('composed_roundtrip_cases')
+        ck.hist('composed_class', cls)
+        ck.seen(('composed', a, b, form))
+        pr = composed_problem(a, b, form)
+        if pr is None:
+            continue
+        key = f'composed-roundtrip:{pr[0]}'
+        if key not in found:
+            found[key] = (pr[1], {'kind': 'composed', 'a': a, 'b': b, 'form': form})
+
+
 # =============================================================================================== axioms
 def theorems_with_axioms(ck: Ck, props_file: str = 'Props/C04.v') -> None:
     """Same job as Ck.theorems (one `theorem:` obligation per theorem, axioms recorded), with a complete parser:
@@ -837,6 +903,8 @@ def run(ck: Ck) -> None:
             'to_angle_guard_operator_is_gt': 'guard_operator_ok ta_guard_cfg',
             'to_angle_guard_literal_is_0_001': 'guard_literal_ok ta_guard_cfg',
             'to_angle_guard_operand_is_horizontal_length': 'guard_operand_ok ta_guard_cfg',
+            'to_angle_pitch_is_atan2_of_minus_forward_z_and_horizontal_length': 'pitch_ok ta_pitch_main_cfg',
+            'to_angle_gimbal_pitch_is_atan2_of_minus_forward_z_and_horizontal_length': 'pitch_ok ta_pitch_lock_cfg',
             'mat_mul_alias_row_a': 'alias_row_ok 0 mat_mul_self_polys mat_mul_ss_polys',
             'mat_mul_alias_row_b': 'alias_row_ok 1 mat_mul_self_polys mat_mul_ss_polys',
             'mat_mul_alias_row_c': 'alias_row_ok 2 mat_mul_self_polys mat_mul_ss_polys',
@@ -880,6 +948,7 @@ def run(ck: Ck) -> None:
     found: dict[str, tuple[str, dict]] = {}
     search_operands(ck, found)
     search_identities(ck, found)
+    search_composed(ck, found)
     for key, (what, rp) in sorted(found.items()):
         ck.violation(key, what, rp)
     keys = set(found)
@@ -887,16 +956,39 @@ def run(ck: Ck) -> None:
     if any(k.startswith(('left-operand-mutated', 'right-operand-mutated', 'result-not-fresh', 'value-mismatch', 'unsupported',
                          'exception', 'result-kind')) for k in keys):
         ck.explain('instance:dispatch_')
-    if any(k.startswith(('euler-roundtrip', 'gimbal-bound', 'assoc-vec-angle', 'value-mismatch:Angle', 'value-mismatch:FrozenAngle'))
-           for k in keys):
-        ck.explain('instance:to_angle_guard_')
+    if any(k.startswith(TO_ANGLE_KEYS) for k in keys):
+        ck.explain('instance:to_angle_')
     if any(k.startswith('value-mismatch:Matrix:same-object') for k in keys):
         ck.explain('instance:mat_mul_alias_')
     if any(k.startswith('inverse-') for k in keys):
         ck.explain('instance:inverse_')
         # the translator could not read inverse() (fail closed) AND the search exhibits a concrete wrong inverse
         ck.explain('translate:RotInverse_gen')
+    explain_translate(ck, keys)
     explain_build(ck, keys)
+
+
+TO_ANGLE_KEYS = ('euler-roundtrip', 'gimbal-bound', 'composed-roundtrip', 'assoc-vec-angle', 'value-mismatch:Angle',
+                 'value-mismatch:FrozenAngle', 'exception:Angle', 'exception:FrozenAngle')
+# A translator that failed closed names the function it could not read (`<function>: line N: ...`).  The failure is marked
+# as explained only when the search exhibits a concrete failing input of an identity that goes through that function.
+FUNCTION_EXPLAINED_BY = {
+    '_to_angle': TO_ANGLE_KEYS,
+    '_mat_mul': ('assoc-matrix', 'value-mismatch:Matrix', 'convention-own-factors'),
+    '_vec_rot': ('assoc-vec-matrix', 'value-mismatch:Vec', 'value-mismatch:FrozenVec', 'value-mismatch:tuple'),
+    'transpose': ('transpose-formula', 'inverse-vs-transpose'),
+    'from_angle': ('from-angle-', 'convention-'), 'from_pitch': ('from_pitch-formula',), 'from_yaw': ('from_yaw-formula',),
+    'from_roll': ('from_roll-formula',),
+}
+
+
+def explain_translate(ck: Ck, keys: set) -> None:
+    for o in ck.obligations:
+        if o['ok'] or not o['name'].startswith('translate:Rot'):
+            continue
+        m = re.search(r'translator failed closed: ([A-Za-z_]+)[:>]', o['detail'])
+        if m and m.group(1) in FUNCTION_EXPLAINED_BY and any(k.startswith(FUNCTION_EXPLAINED_BY[m.group(1)]) for k in keys):
+            o['explained'] = True
 
 
 # Which concrete violation (key prefix) exhibits the failure of which lemma.  A failed proof build is marked as explained
@@ -958,6 +1050,11 @@ def replay(data: dict) -> int:
         probs = check_triple(r['form'], r['l'], r['r'], r['alias'], vl, vr)
         print('problems  :', probs or 'none')
         return 1 if probs else 0
+    if r.get('kind') == 'composed':
+        pr = composed_problem(tuple(r['a']), tuple(r['b']), r['form'])
+        print('from_angle', r['a'], '@ from_angle', r['b'], 'form', r['form'])
+        print('problem   :', pr or 'none')
+        return 1 if pr else 0
     if r.get('kind') == 'identity':
         probs = ident_problems(*r['angle'], tuple(r['vector']), tuple(r['second_angle']))
         print('angle', r['angle'], 'vector', r['vector'], 'second angle', r['second_angle'])
